@@ -95,6 +95,8 @@ class Field:
         self.name = ("f%d" % i) if named else ("_%d" % i)
         if named == "raw":   # raw-identifier field names: `r#type` in Rust code, `type` inside a format literal
             self.name = ("r#type", "r#fn", "r#struct")[i]
+        if named == "und":   # NAMED fields that look like tuple positions (`_1` is the first field, `_0` the second): found by name, not by index
+            self.name = ("_1", "_0", "_2")[i]
         self.lname = self.name[2:] if self.name.startswith("r#") else self.name
 
 
@@ -279,15 +281,15 @@ def run(chk, tier):
     reqs, metas = [], []
     traits_cycle = ["Display", "Debug", "LowerHex", "Pointer"]
     for derive in ("Display", "LowerHex", "Debug"):
-        for named in (False, True, "raw"):
-            for n in ((1, 2, 3) if named != "raw" else (1, 2)):
+        for named in (False, True, "raw", "und"):
+            for n in ((1, 2, 3) if named not in ("raw", "und") else (1, 2)):
                 six = ("T", "ref", "vec", "plain", "qassoc_arg", "fnptr")
                 form_sets = list(itertools.product(forms, repeat=n)) if n <= 2 else (
                     list(itertools.product(six, repeat=n)) if thorough else
                     [fs for fs in itertools.product(forms, repeat=n) if fs[0] in ("T", "vec", "plain", "assoc") and fs[2] in ("ref", "plain", "wrapper", "phantom")])
                 style_sets = list(itertools.product(STYLES + (["shadow_expr", "positional_named", "positional_far"] if n <= 2 else []), repeat=n))
                 for fs in form_sets:
-                    if named == "raw" and n == 2 and not (fs[0] in CORE_FORMS and fs[1] in CORE_FORMS):
+                    if named in ("raw", "und") and n == 2 and not (fs[0] in CORE_FORMS and fs[1] in CORE_FORMS):
                         continue
                     if n == 2 and not thorough and (fs[0] in NEW_FORMS or fs[1] in NEW_FORMS) and not (fs[0] in CORE_FORMS or fs[1] in CORE_FORMS):
                         continue   # quick: a later-added form is paired with the four core forms only
@@ -308,7 +310,7 @@ def run(chk, tier):
                                     # the same item as a `macro_rules!` expansion hands it over (field types in None-delimited groups)
                                     reqs.append({"derive": derive, "item": item, "group": True})
                                     metas.append((item + "  [field types grouped]", model, "%s/%s/grouped-types" % (derive, level)))
-                                if n == 1 and fields[0].generic and named != "raw":
+                                if n == 1 and fields[0].generic and named not in ("raw", "und"):
                                     item, model = make_item(derive, level, named, fields, level, own_where=True)
                                     reqs.append({"derive": derive, "item": item})
                                     metas.append((item, model, "%s/%s/own-where-clause" % (derive, level)))
@@ -332,6 +334,14 @@ def run(chk, tier):
                     ("implicit/variant-under-wrapping-shared-naming-the-field", '#[%s("{_variant} | {%s:?}")] enum S%s { V %s }' % (a, f.name, gdecl, body), own | dbg),
                     ("implicit/two-variants-under-wrapping-shared", '#[%s("<{_variant}>")] enum S%s { V %s, U %s }' % (a, gdecl, body, body), own),
                 ]
+                if f.generic:
+                    # an attribute that only carries explicit bounds (no format literal): the bounds are kept next to the inferred one
+                    clone = {nows("%s : Clone" % f.param)}
+                    variants += [
+                        ("implicit/struct-with-bound-only-attribute", "#[%s(bound(%s: Clone))] struct S%s %s%s" % (a, f.param, gdecl, body, "" if named else ";"), own | clone),
+                        ("implicit/variant-with-bound-only-attribute", 'enum S%s { #[%s(bound(%s: Clone))] V %s, #[%s("w")] W }' % (gdecl, a, f.param, body, a), own | clone),
+                        ("implicit/enum-with-bound-only-attribute", '#[%s(bound(%s: Clone))] enum S%s { V %s, #[%s("w")] W }' % (a, f.param, gdecl, body, a), own | clone),
+                    ]
                 for kind, item, model in variants:
                     reqs.append({"derive": derive, "item": item})
                     metas.append((item, model, "%s/%s" % (derive, kind)))
